@@ -59,6 +59,7 @@ import (
 	"fmt"
 	"io"
 	"math"
+	"strings"
 	"sync"
 
 	"github.com/RoaringBitmap/roaring"
@@ -174,10 +175,21 @@ func validateMetadata(metadata map[string]interface{}) error {
 	return nil
 }
 
+// escapeField makes a field name safe for use in a "field:value" posting key: a ':'
+// (or the escape character itself) inside the name is escaped, so that the first
+// unescaped ':' of a key is always the separator. Without this, field "a" with value
+// "b:c" and field "a:b" with value "c" shared one posting list.
+func escapeField(field string) string {
+	if !strings.ContainsAny(field, ":\\") {
+		return field
+	}
+	return strings.NewReplacer("\\", "\\\\", ":", "\\:").Replace(field)
+}
+
 // addCategorical adds a categorical field value to the index.
 // Must be called with idx.mu held.
 func (idx *RoaringMetadataIndex) addCategorical(field, value string, docID uint32) {
-	key := fmt.Sprintf("%s:%s", field, value)
+	key := fmt.Sprintf("%s:%s", escapeField(field), value)
 	if idx.categorical[key] == nil {
 		idx.categorical[key] = roaring.New()
 	}
@@ -264,7 +276,7 @@ func (idx *RoaringMetadataIndex) getExistenceBitmap(field string) *roaring.Bitma
 
 	// Check categorical fields - OR all bitmaps for this field
 	result := roaring.New()
-	prefix := field + ":"
+	prefix := escapeField(field) + ":"
 	for key, bitmap := range idx.categorical {
 		if len(key) >= len(prefix) && key[:len(prefix)] == prefix {
 			result.Or(bitmap)
@@ -279,14 +291,14 @@ func (idx *RoaringMetadataIndex) getExistenceBitmap(field string) *roaring.Bitma
 func (idx *RoaringMetadataIndex) queryCategorical(filter Filter) (*roaring.Bitmap, error) {
 	switch filter.Operator {
 	case OpEqual, "": // Default to equality
-		key := fmt.Sprintf("%s:%v", filter.Field, filter.Value)
+		key := fmt.Sprintf("%s:%v", escapeField(filter.Field), filter.Value)
 		if bitmap, exists := idx.categorical[key]; exists {
 			return bitmap.Clone(), nil
 		}
 		return roaring.New(), nil
 
 	case OpNotEqual: // Not equal
-		key := fmt.Sprintf("%s:%v", filter.Field, filter.Value)
+		key := fmt.Sprintf("%s:%v", escapeField(filter.Field), filter.Value)
 		result := idx.allDocs.Clone()
 		if bitmap, exists := idx.categorical[key]; exists {
 			result.AndNot(bitmap)
@@ -300,14 +312,14 @@ func (idx *RoaringMetadataIndex) queryCategorical(filter Filter) (*roaring.Bitma
 		switch vals := filter.Value.(type) {
 		case []string:
 			for _, val := range vals {
-				key := fmt.Sprintf("%s:%s", filter.Field, val)
+				key := fmt.Sprintf("%s:%s", escapeField(filter.Field), val)
 				if bitmap, exists := idx.categorical[key]; exists {
 					result.Or(bitmap)
 				}
 			}
 		case []interface{}:
 			for _, val := range vals {
-				key := fmt.Sprintf("%s:%v", filter.Field, val)
+				key := fmt.Sprintf("%s:%v", escapeField(filter.Field), val)
 				if bitmap, exists := idx.categorical[key]; exists {
 					result.Or(bitmap)
 				}
@@ -325,14 +337,14 @@ func (idx *RoaringMetadataIndex) queryCategorical(filter Filter) (*roaring.Bitma
 		switch vals := filter.Value.(type) {
 		case []string:
 			for _, val := range vals {
-				key := fmt.Sprintf("%s:%s", filter.Field, val)
+				key := fmt.Sprintf("%s:%s", escapeField(filter.Field), val)
 				if bitmap, exists := idx.categorical[key]; exists {
 					result.AndNot(bitmap)
 				}
 			}
 		case []interface{}:
 			for _, val := range vals {
-				key := fmt.Sprintf("%s:%v", filter.Field, val)
+				key := fmt.Sprintf("%s:%v", escapeField(filter.Field), val)
 				if bitmap, exists := idx.categorical[key]; exists {
 					result.AndNot(bitmap)
 				}
